@@ -313,7 +313,7 @@ pub fn plan(id: &str, tier: &str, seed: u64, round: u64) -> Plan {
             let n = if thorough { 512 } else { 320 };
             let mut cfg = string_cfg(id);
             cfg.allow_fields = false;
-            cfg.allow_generics = false;
+            cfg.allow_generics = true; // field-less: only an unused const parameter can appear
             cfg.ci_heavy = true;
             cfg.sync_only = true;
             cfg.allow_default_with = false;
